@@ -24,6 +24,7 @@ LEVEL_TEXT = {
     "C19": ("exploration", "Exhaustive configuration grid (3408 points per ideal size): sizeof/alignof/default_buffer_size of real instantiations compared with the property's own statement (largest count fitting 64 bytes, else 1; N=0 stateless = pointer + 2 size_type; alignment), evaluated independently in Python.", "§4 C19"),
     "C08": ("exploration", "Differential between constant evaluation and run time: rapidcheck-generated operation programs are embedded in generated translation units, `constexpr auto ct = run(prog)` must be accepted by g++ and clang++ (whose evaluators reject UB, out-of-lifetime access and unreleased allocations) and must equal the run-time result (ASan+UBSan) of the same function on the same bytes; rejected programs are bisected and delta-debugged.", "§4 C08"),
     "C17": ("exploration", "Cross-build differential: one C++11-clean interpreter source is built under 10-12 (compiler, standard, GCH_DISABLE_CONCEPTS) combinations; every build executes the same rapidcheck-generated corpus over 5 configurations and must print identical observation-trace digests (values, sizes, capacities, positions, exceptions, allocate counts), and a configuration must compile under all standards or none.", "§4 C17"),
+    "C20": ("exploration", "Generated container states in a real debuggee under gdb -batch with the shipped printer: printed length/capacity, children (by value), iterator printers and the natvis member paths are compared with the program's own record, in a g++ and a clang++ build.", "§4 C20"),
 }
 
 
@@ -77,6 +78,7 @@ TECHNIQUE = {
     "C15": "property testing with instrumented single-pass / checked iterators",
     "C17": "differential testing across language standards / compilers on a generated program corpus (trace digest comparison)",
     "C18": "exhaustive configuration-grid enumeration of noexcept/trait values against independently coded conditions, plus property-based fault injection with a terminate oracle",
+    "C20": "generated-state differential between the debugger visualisers (run under gdb) and the program's own dump",
     "C19": "exhaustive configuration-grid enumeration with an independent size/alignment oracle",
     "C16": "exhaustive small-domain differential testing against std::vector plus rapidcheck-generated contents, cross-build table comparison",
 }
@@ -90,6 +92,7 @@ ENGINES = [
     {"name": "conv", "path": "harness/conv_main.cpp, harness/archetypes.hpp, vlib/conv.py", "serves_properties": ["C13"], "kind_free_text": "converting-input differential against static_cast / std::vector and archetype compile probes"},
     {"name": "cx", "path": "harness/cx_interp.hpp, harness/cx_emit.cpp, vlib/cxeng.py", "serves_properties": ["C08"], "kind_free_text": "constexpr interpreter; generated TUs compiled by g++ and clang++, compile-time vs run-time digests"},
     {"name": "xstd", "path": "harness/xstd_main.cpp, vlib/xstd.py", "serves_properties": ["C17"], "kind_free_text": "the interpreter built under every standard/compiler; corpus digests compared"},
+    {"name": "gdbpp", "path": "harness/gdb_debuggee.cpp, harness/gdb_check.py, vlib/gdbpp.py", "serves_properties": ["C20"], "kind_free_text": "debuggee + gdb batch script using the shipped pretty-printer and natvis paths"},
     {"name": "fault", "path": "harness/hist_main.cpp (fault mode)", "serves_properties": ["C05", "C06"],
      "kind_free_text": "prefix + operation under test, every fault point enumerated"},
 ]
